@@ -254,6 +254,10 @@ def _check(world: World, host: AppHost, conns: List[ConnInfo], T: float, out: Ou
         t_close = srv.closed_at
         t_loss = min([t for t in (srv.fin_arrived_at, srv.rst_arrived_at) if t is not None], default=None)
         busy = _busy_intervals(host, info)
+        if t_close is not None:
+            # a request whose head completes in the very instant the idle timer fires has no defined
+            # order with the close; instances that only start at or after the close are not "in progress"
+            busy = [(s, e) for s, e in busy if s < t_close - EPS]
         recvs = [e[1] for e in sim.log if e[2] == "s.recv" and e[3] == conn.id and e[4] > 0]
         # server-generated error responses: time of the write that carried them
         err_times = _error_response_times(info, conn)
@@ -308,7 +312,7 @@ def _check(world: World, host: AppHost, conns: List[ConnInfo], T: float, out: Ou
             parked = info.proto == "h1" and _parked(host, info, t_dead)
             why = "peer-loss" if (t_loss is not None and t_dead == t_loss) else "server-close"
             if handler[1] is None or handler[1] > deadline:
-                if not err_times and handler[1] is not None and why == "peer-loss":
+                if not err_times and handler[1] is not None:
                     linger = handler[1] - t_apps
                     cut_by_shutdown = trigger is not None and abs(handler[1] - trigger) < DELTA and linger < T
                     if abs(linger - T) < 2e-3 or cut_by_shutdown:
